@@ -105,6 +105,8 @@ def truth(v):
             return {True, False} if v.empty is None else {not v.empty}
         if v.kind == "other":
             return {True} if v.empty is False else {True, False}
+        if v.kind in ("int", "float") and v.tag in ("zero", "nonzero"):
+            return {v.tag == "nonzero"}
         return {True, False}
     if isinstance(v, S):
         return {True, False}
@@ -288,6 +290,11 @@ class Interp:
             if isinstance(op, (ast.Eq, ast.NotEq)) and isinstance(l, C) and isinstance(r, C):
                 res = l.v == r.v
                 return [(res if isinstance(op, ast.Eq) else not res, env)]
+            if isinstance(op, (ast.Eq, ast.NotEq)):
+                for a, b in ((l, r), (r, l)):
+                    # a string of known emptiness compared with the empty string literal
+                    if isinstance(a, C) and a.v == "" and isinstance(b, K) and b.kind == "str" and b.empty is not None:
+                        return [(b.empty if isinstance(op, ast.Eq) else not b.empty, env)]
             return [(True, env), (False, env)]
         if isinstance(t, ast.Call) and call_name(t) == "isinstance" and len(t.args) == 2:
             v = self.ev(t.args[0], env)
